@@ -223,6 +223,7 @@ class Schedule:
 
     perm_seed: Optional[int] = None  # permute tasks of each op deterministically from this seed
     duplicates: dict = field(default_factory=dict)  # (op_index, task_index) -> "now" | "after-op" | "end"
+    dup_list: list = field(default_factory=list)  # [(op selector, task selector, timing)]: selectors are taken modulo the actual counts
     crash_before_task: Optional[int] = None  # global task counter (0-based): raise Crash before running it
     pickle_mode: Optional[str] = None  # None | "roundtrip"
     check_block_shapes: bool = False
@@ -332,6 +333,10 @@ class ScheduleExecutor(DagExecutor):
 
     def _call(self, pipeline, m, cfg, name):
         fn = pipeline.function
+        ext = getattr(self, "external_call", None)
+        if ext is not None:
+            # placement independence: the task runs somewhere else from its serialized form
+            return ext(fn, m, pipeline.config)
         if self.s.pickle_mode == "roundtrip":
             import cloudpickle
 
@@ -365,7 +370,9 @@ class ScheduleExecutor(DagExecutor):
     def execute_dag(self, dag, callbacks=None, spec=None, compute_id=None, **kwargs):
         self.entered += 1
         end_dups = []
-        for op_index, (name, node) in enumerate(visit_nodes(dag)):
+        nodes_list = list(visit_nodes(dag))
+        nops = len(nodes_list)
+        for op_index, (name, node) in enumerate(nodes_list):
             handle_operation_start_callbacks(callbacks, name)
             pipeline = node["pipeline"]
             tasks = list(pipeline.mappable)
@@ -375,6 +382,10 @@ class ScheduleExecutor(DagExecutor):
             cfg = self._config(pipeline)
             self.ops_run.append(name)
             after_op = []
+            dmap = dict()
+            for (osel, tsel, timing) in self.s.dup_list:
+                if nops and len(tasks) and osel % nops == op_index:
+                    dmap[tsel % len(tasks)] = timing
             for ti in order:
                 m = tasks[ti]
                 if self.s.crash_before_task is not None and self.task_counter == self.s.crash_before_task:
@@ -386,7 +397,7 @@ class ScheduleExecutor(DagExecutor):
                     event = TaskEndEvent(name=name, result=result)
                     for cb in callbacks:
                         cb.on_task_end(event)
-                d = self.s.duplicates.get((op_index, ti)) or self.s.duplicates.get(f"{op_index}:{ti}")
+                d = self.s.duplicates.get((op_index, ti)) or self.s.duplicates.get(f"{op_index}:{ti}") or dmap.get(ti)
                 if d == "now":
                     self._call(pipeline, m, cfg, name)
                     self.tasks_run.append((name, repr(m) + "#dup-now"))
